@@ -8,12 +8,49 @@ Theorem std_output_accepted e n ls got :
   ls <> [] -> Forall LineOK ls -> Plain got -> Plain (join_nl ls) ->
   contains BLANKLINE got = false ->
   true_for_1 (join_nl ls ++ [NL]) got = false ->
-  (e = true -> contains marker (collapse_ws got) = false) ->
+  (e = true -> contains marker got = false) ->
   std_check_output e n (join_nl ls ++ [NL]) got = true ->
   check_output default_flags got (join_nl ls) = true.
 Proof.
-  intros Hne HF Hg Hw Hnm Ht Hell. apply (std_output_accepted_gen true); try assumption.
-  - intros _. exact ellmatch_collapse.
+  intros Hne HF Hg Hw Hnm Ht Hell.
+  apply (std_output_accepted_gen true (fun _ => ellmatch_collapse) e n ls got Hne HF Hw got Hg eq_refl); try assumption.
+  - intros He. rewrite cgo_collapse, marker_C. apply Hell, He.
+  - reflexivity.
+Qed.
+
+(* ---------- at the level of one example (the run loop's comparison of a part, RunLoop.part_check) ---------- *)
+From XD Require Import Model.Text Model.Parser Model.Directive Model.RunLoop Proofs.RunWant Proofs.WordsFacts.
+
+(* an example that is not an expression, or whose value is None: the standard module compares what it wrote to stdout.
+   um: output of earlier examples that no want has consumed yet - whatever it is, the example passes *)
+Theorem std_statement_example_passes e n ls um out :
+  ls <> [] -> Forall LineOK ls -> Plain out -> Plain (join_nl ls) ->
+  contains BLANKLINE out = false ->
+  true_for_1 (join_nl ls ++ [NL]) out = false ->
+  (e = true -> contains marker out = false) ->
+  std_check_output e n (join_nl ls ++ [NL]) out = true ->
+  part_check default_flags (join_nl ls) um out NotEvaled = GW_ok.
+Proof.
+  intros Hne HF Hg Hw Hnm Ht Hell Hstd.
+  apply part_check_ok_iff; [discriminate|]. exists out. split; [apply candidate_last|].
+  cbn [CandOK]. eapply std_output_accepted; eassumption.
+Qed.
+
+(* an expression example that writes nothing: the standard module compares repr(value) + newline, xdoctest the repr *)
+Theorem std_expression_example_passes e n ls um r :
+  ls <> [] -> Forall LineOK ls -> Plain r -> Plain (join_nl ls) ->
+  contains BLANKLINE (r ++ [NL]) = false ->
+  true_for_1 (join_nl ls ++ [NL]) (r ++ [NL]) = false ->
+  (e = true -> contains marker (r ++ [NL]) = false) ->
+  std_check_output e n (join_nl ls ++ [NL]) (r ++ [NL]) = true ->
+  part_check default_flags (join_nl ls) um [] (EvalRepr r) = GW_ok.
+Proof.
+  intros Hne HF Hg Hw Hnm Ht Hell Hstd.
+  apply part_check_ok_iff; [discriminate|]. exists []. split; [apply candidate_last|].
+  cbn [CandOK]. right.
+  apply (std_output_accepted_gen true (fun _ => ellmatch_collapse) e n ls (r ++ [NL]) Hne HF Hw r Hg); try assumption.
+  - symmetry. apply words_app_trailing. reflexivity.
+  - intros He. rewrite cgo_collapse, marker_C. apply Hell, He.
   - reflexivity.
 Qed.
 
@@ -23,7 +60,7 @@ Definition demo2_got : str := [97;32;32;120;10;10;99;10].                       
 Example demo_std_output_ellipsis_hyps :
   demo2_want_lines <> [] /\ Forall LineOK demo2_want_lines /\ Plain demo2_got /\ Plain (join_nl demo2_want_lines) /\
   contains BLANKLINE demo2_got = false /\ true_for_1 (join_nl demo2_want_lines ++ [NL]) demo2_got = false /\
-  contains marker (collapse_ws demo2_got) = false /\
+  contains marker demo2_got = false /\
   std_check_output true false (join_nl demo2_want_lines ++ [NL]) demo2_got = true /\
   std_check_output false false (join_nl demo2_want_lines ++ [NL]) demo2_got = false.
 Proof.
